@@ -40,7 +40,8 @@ DocsSeq == { Obj(<<A, B>>, <<Arr(<<IntV(1), IntV(2)>>), Obj(<<A>>, <<Arr(<<>>)>>
              Arr(<<IntV(1), IntV(2)>>), Obj(<<>>, <<>>), Arr(<<>>) }
 Docs == IF Universe = "single" THEN DocsSingle ELSE DocsSeq
 
-Values(d) == {IntV(7), Bool(TRUE), IntV(1), Null, Arr(<<>>), Obj(<<A>>, <<Arr(<<IntV(1)>>)>>)}
+\* (the last one is a string that reads as JSON text - "[1]": put at the root it is the document, a string, and nothing is below it)
+Values(d) == {IntV(7), Bool(TRUE), IntV(1), Null, Arr(<<>>), Obj(<<A>>, <<Arr(<<IntV(1)>>)>>), Str(<<91, 49, 93>>)}
 
 \* paths worth trying on the current document: every existing location, every
 \* one-step extension of a container (append position, past the end, "-",
